@@ -8,12 +8,17 @@
 (*   Callback(w)    for every trial this worker failed: the callback appends the trial to the retry      *)
 (*                  history and, unless max_retry is exceeded, queues a WAITING copy                     *)
 (*   Claim / Die / Finish: the environment (a worker takes a queued retry, it dies again, or completes)  *)
+(*   ZombieWrite(t) the worker of a stale trial is slow, not dead: it still writes a parameter / user attribute  *)
+(*                  (ver = number of writes accepted so far; a finished trial refuses writes).  The callback      *)
+(*                  reads the trial AFTER it is FAIL, so the copy it queues (orig) is the final content.          *)
 (*   Crash(w)       the sweeping worker dies anywhere in its sweep                                       *)
 (* AtomicCAS = FALSE splits FailCAS into the SELECT and the UPDATE of different SQLite connections (K1). *)
 EXTENDS Integers, Sequences, FiniteSets, TLC
-CONSTANTS Workers, MaxTrials, MaxRetry, AtomicCAS, InitStates      \* MaxRetry = -1: unlimited
+CONSTANTS Workers, MaxTrials, MaxRetry, AtomicCAS, InitStates,     \* MaxRetry = -1: unlimited
+          MaxWrites                                                \* late writes per trial (0: every stale worker is dead)
 
-VARIABLES trials,     \* sequence of [state, beat, hist]   beat \in {"none","fresh","stale"}; hist = retry history
+VARIABLES trials,     \* sequence of [state, beat, hist, ver, orig]   beat \in {"none","fresh","stale"}; hist = retry history;
+                      \* ver = content version (writes accepted so far); orig = version of the failed trial a retry was copied from
           failedBy,   \* trial -> set of workers whose FAIL request answered True
           called,     \* trial -> number of callback invocations
           pc, todo, mine, seen, alive
@@ -25,7 +30,7 @@ Stale == {t \in 1..N : trials[t].state = "RUNNING" /\ trials[t].beat = "stale"}
 RECURSIVE SeqOf(_)
 SeqOf(S) == IF S = {} THEN <<>> ELSE LET m == CHOOSE x \in S : \A y \in S : x <= y IN <<m>> \o SeqOf(S \ {m})
 
-Init == /\ trials = [i \in 1..Len(InitStates) |-> [state |-> InitStates[i].state, beat |-> InitStates[i].beat, hist |-> <<>>]]
+Init == /\ trials = [i \in 1..Len(InitStates) |-> [state |-> InitStates[i].state, beat |-> InitStates[i].beat, hist |-> <<>>, ver |-> 0, orig |-> 0]]
         /\ failedBy = [i \in 1..Len(InitStates) |-> {}] /\ called = [i \in 1..Len(InitStates) |-> 0]
         /\ pc = [w \in Workers |-> "idle"] /\ todo = [w \in Workers |-> <<>>] /\ mine = [w \in Workers |-> <<>>]
         /\ seen = [w \in Workers |-> "none"] /\ alive = Workers
@@ -66,7 +71,8 @@ Callback(w) ==
   /\ LET t == Head(mine[w])  h == Append(trials[t].hist, t) IN
        /\ IF (MaxRetry # -1 /\ MaxRetry < Len(h)) \/ N >= MaxTrials
             THEN UNCHANGED <<trials, failedBy>> /\ called' = [called EXCEPT ![t] = @ + 1]
-            ELSE /\ trials' = Append(trials, [state |-> "WAITING", beat |-> "none", hist |-> h])
+            ELSE /\ trials' = Append(trials, [state |-> "WAITING", beat |-> "none", hist |-> h,
+                                              ver |-> trials[t].ver, orig |-> trials[t].ver])     \* get_trial(t) now: t is FAIL
                  /\ failedBy' = Append(failedBy, {})
                  /\ called' = Append([called EXCEPT ![t] = @ + 1], 0)
   /\ mine' = [mine EXCEPT ![w] = Tail(@)]
@@ -81,13 +87,18 @@ RetryDies(t) ==
   /\ t \in 1..N /\ trials[t].state = "WAITING"
   /\ trials' = [trials EXCEPT ![t].state = "RUNNING", ![t].beat = "stale"]
   /\ UNCHANGED <<failedBy, called, pc, todo, mine, seen, alive>>
+\* the worker of a stale trial is alive after all and writes to its trial (accepted only while the trial is RUNNING)
+ZombieWrite(t) ==
+  /\ t \in 1..N /\ trials[t].state = "RUNNING" /\ trials[t].beat = "stale" /\ trials[t].ver - trials[t].orig < MaxWrites
+  /\ trials' = [trials EXCEPT ![t].ver = @ + 1]
+  /\ UNCHANGED <<failedBy, called, pc, todo, mine, seen, alive>>
 Crash(w) ==
   /\ w \in alive /\ pc[w] # "idle" /\ Cardinality(alive) = Cardinality(Workers)
   /\ alive' = alive \ {w} /\ UNCHANGED <<trials, failedBy, called, pc, todo, mine, seen>>
 
 Next == \/ \E w \in Workers : ReadStale(w) \/ FailCAS(w) \/ FailRead(w) \/ FailWrite(w) \/ StartCallbacks(w) \/ Callback(w)
                                \/ EndSweep(w) \/ Crash(w)
-        \/ \E t \in 1..MaxTrials : RetryDies(t)
+        \/ \E t \in 1..MaxTrials : RetryDies(t) \/ ZombieWrite(t)
 Spec == Init /\ [][Next]_vars
 
 FailedByAtMostOne  == \A t \in 1..N : Cardinality(failedBy[t]) <= 1
@@ -96,6 +107,9 @@ RetriesBounded     == MaxRetry # -1 => \A t \in 1..N : Len(trials[t].hist) <= Ma
 AtMostOneRetryPerFailure == \A t \in 1..N : Cardinality({u \in 1..N : trials[u].hist = Append(trials[t].hist, t)}) <= 1
 HistoryCorrect     == \A t \in 1..N : \A i \in 1..Len(trials[t].hist) :
                          LET p == trials[t].hist[i] IN p < t /\ trials[p].state = "FAIL" /\ trials[p].hist = SubSeq(trials[t].hist, 1, i - 1)
+\* the retry carries the content (parameters, user attributes) the failed trial had when it became FAIL (= has for ever)
+RetryCarriesContent == \A t \in 1..N : trials[t].hist # <<>> =>
+                         LET p == trials[t].hist[Len(trials[t].hist)] IN trials[t].orig = trials[p].ver
 \* trials without a heartbeat, with a fresh one, or finished are never touched by the sweep
 Untouched == [][\A t \in 1..N : (trials[t].state # "RUNNING" \/ trials[t].beat # "stale") =>
                    (trials'[t] = trials[t] \/ (trials[t].state = "WAITING" /\ trials'[t].state = "RUNNING"))]_vars
